@@ -29,7 +29,7 @@ func qresTerm(o Op) string {
 	} else {
 		text = SubQueries[o.Q%len(SubQueries)]
 	}
-	ok, msg := QueryVerdict(text, o.Op == "mutate")
+	ok, msg := QueryVerdict(text, o.Op == "mutate", o.Vars)
 	if ok {
 		return "QOk"
 	}
